@@ -52,6 +52,28 @@ impl TargetActorHelper {
         }
     }
 
+    #[cfg(zinoma_verif)]
+    pub fn verif_snapshot(&self) -> String {
+        use crate::verif::js_set;
+        let actors = |kind: ExecutionKind| {
+            js_set(self.requesters[&kind].iter().map(|id| match id {
+                ActorId::Root => "ROOT".to_string(),
+                ActorId::Target(target_id) => target_id.to_string(),
+            }))
+        };
+        let unavailable =
+            |kind: ExecutionKind| js_set(self.unavailable_dependencies[&kind].iter().map(ToString::to_string));
+        format!(
+            "{{\"to_execute\":{},\"executed\":{},\"unavail_b\":{},\"unavail_s\":{},\"req_b\":{},\"req_s\":{}}}",
+            self.to_execute,
+            self.executed,
+            unavailable(ExecutionKind::Build),
+            unavailable(ExecutionKind::Service),
+            actors(ExecutionKind::Build),
+            actors(ExecutionKind::Service),
+        )
+    }
+
     pub fn should_execute(&self, kind: ExecutionKind) -> bool {
         self.to_execute
             && !self.requesters[&kind].is_empty()
@@ -77,11 +99,28 @@ impl TargetActorHelper {
 
     pub async fn notify_execution_failed(&mut self, e: Error) {
         self.executed = false;
+        #[cfg(zinoma_verif)]
+        crate::verif::emit("send_error", &self.target_id.to_string(), &[]);
         let msg = TargetActorOutputMessage::TargetExecutionError(self.target_id.clone(), e);
         let _ = self.target_actor_output_sender.send(msg).await;
     }
 
     pub async fn send_to_actor(&self, dest: ActorId, msg: ActorInputMessage) {
+        #[cfg(zinoma_verif)]
+        crate::verif::emit(
+            "send",
+            &self.target_id.to_string(),
+            &[
+                (
+                    "dest",
+                    crate::verif::js(&match &dest {
+                        ActorId::Root => "ROOT".to_string(),
+                        ActorId::Target(target_id) => target_id.to_string(),
+                    }),
+                ),
+                ("msg", msg.verif_json()),
+            ],
+        );
         let _ = self
             .target_actor_output_sender
             .send(TargetActorOutputMessage::MessageActor { dest, msg })
